@@ -1,5 +1,67 @@
-import PatchModel.Spec.Script
+/-
+  C18 / C04 (exit status) / C09 (driver model).
+-/
+import PatchModel.Model.Driver
+import PatchModel.Lemmas.DriverFacts
 namespace PatchModel.C09
-/-- placeholder until the driver model's theorems are in (see DESIGN.md section 5/C09) -/
-theorem placeholder : True := trivial
+open PatchModel PatchModel.DriverFacts
+
+/-- an abort keeps the tree exactly as it was at the instant of the exception (no cleanup, no rollback, no further writes) -/
+theorem abort_keeps_state (o : Options) (s0 s : DState) (e : Exn) (hh : o.showHelp = false ∧ o.showVersion = false)
+    (h : (processPatchM o).run s0 = (.error e, s)) : runPatch o s0 = (2, s) := by
+  unfold runPatch
+  rw [hh.1, hh.2, h]
+  rfl
+
+/-- **a section is all or nothing with respect to the patch text**: when a section is abandoned because of its text (parser error,
+    malformed counts: `parser_error` / `invalid_argument`), it has not touched any file content: the only operations it performed are
+    on anonymous temporaries, or a `chmod` (the write permission given to a read-only target) -/
+theorem section_atomic (o : Options) (format : Format) (s s' : DState) (e : Exn)
+    (h : (processSection o format).run s = (.error e, s')) (he : e = .parserError ∨ e = .invalidArgument) :
+    ∃ ops, s'.trace = s.trace ++ ops ∧ ∀ op ∈ ops, op.isTmp = true ∨ ∃ p m, op = FsOp.chmod p m := by
+  exact (processSection_atomic o format).err s e s' h he
+
+/-- a file is written in one go: `creat` is always directly followed by the `write` of the whole content (or by nothing, for empty
+    content); no other statement — in particular nothing that can throw because of the patch text — lies between them -/
+theorem writeFile_trace (p content : Bytes) (s s' : DState) (h : (writeFile p content).run s = (.ok (), s')) :
+    s'.trace = s.trace ++ (if content.isEmpty then [FsOp.creat (absPath s p)] else [FsOp.creat (absPath s p), FsOp.write (absPath s p) content]) := by
+  unfold writeFile at h
+  rw [run_bind, run_opCreat] at h
+  split at h
+  · next a s1 h1 =>
+    rcases doOp_cases h1 with ⟨_, fs', _, rfl⟩ | ⟨h2, _⟩
+    · rw [run_opWrite] at h
+      split at h
+      · next hc => cases h; rw [if_pos hc]
+      · next hc =>
+        rw [if_neg hc]
+        rcases doOp_cases h with ⟨_, fs2, _, rfl⟩ | ⟨h2, _⟩
+        · show (s.trace ++ [_]) ++ [_] = _
+          rw [List.append_assoc]; rfl
+        · cases h2
+    · cases h2
+  · cases h
+
+/-- the sources of git renames are removed only after every deferred file has been completely written: in the operations of
+    `DeferredWriter::finalize` no `unlink`/`rmdir` precedes a `creat`/`write`/`chmod`/`mkdir` -/
+theorem finalize_removals_last (s s' : DState) (r : Except Exn Unit) (h : finalizeDeferred.run s = (r, s')) :
+    ∃ ws rs, s'.trace = s.trace ++ ws ++ rs ∧
+      (∀ op ∈ ws, ∀ p, op ≠ FsOp.unlink p ∧ op ≠ FsOp.rmdir p) ∧
+      (∀ op ∈ rs, ∃ p, op = FsOp.unlink p ∨ op = FsOp.rmdir p) := by
+  unfold finalizeDeferred at h
+  rw [run_bind, run_get] at h
+  refine TrExt.seq2 (A := fun op => ∀ p, op ≠ FsOp.unlink p ∧ op ≠ FsOp.rmdir p)
+    (B := fun op => ∃ p, op = FsOp.unlink p ∨ op = FsOp.rmdir p) ?_ (fun _ => ?_) h
+  · spec_walk (good_ext _)
+    · exact ensureParentDirs_trExt (by intro p q; simp) _
+    · exact writeFile_trExt (by intro p q; simp) (by intro p b q; simp) _ _
+    · exact permissionCallback_trExt (by intro p m q; simp) _ _ _
+  · spec_walk (good_ext _)
+    exact removeFileAndEmptyParents_trExt (fun p => ⟨p, Or.inl rfl⟩) (fun p => ⟨p, Or.inr rfl⟩) _
+
 end PatchModel.C09
+
+#print axioms PatchModel.C09.abort_keeps_state
+#print axioms PatchModel.C09.section_atomic
+#print axioms PatchModel.C09.writeFile_trace
+#print axioms PatchModel.C09.finalize_removals_last
